@@ -320,6 +320,46 @@ func (h *harness) runOperators(ctx *bex.Ctx) {
 	ctx.SpaceDone(fmt.Sprintf("%d binary operators x %d x %d operands of every sort (arguments, literals, non-constant bools/floats, a lazy list, maps, a closure), bare and inside a list literal; 2 unary operators; a in {0,3}; optimizer on/off", len(ops), len(operands), len(operands)))
 }
 
+// runStaticNames: arguments, lets, funcs and closure parameters that carry the NAME of a static function
+// (abs, sqrt, min) or of a map method (get, put, size): the nearest enclosing binding wins, and a closure
+// stored in a map under a method's name is what m.name(..) calls.
+func (h *harness) runStaticNames(ctx *bex.Ctx) {
+	ctx.Space("locals-named-like-static-functions")
+	v, I, op := vlang.V, vlang.I, vlang.Op
+	inc := vlang.LamN([]string{"x"}, op("+", v("x"), I(1)))
+	var progs []*vlang.Node
+	for _, n := range []string{"abs", "sqrt", "min", "string"} {
+		call := func(arg *vlang.Node) *vlang.Node { return vlang.CallN(v(n), arg) }
+		progs = append(progs,
+			vlang.CallN(vlang.LamN([]string{n}, call(I(16))), inc),
+			vlang.CallN(vlang.LamN([]string{n}, call(op("-", I(0), v("a")))), vlang.LamN([]string{"x"}, op("*", v("x"), I(100)))),
+			vlang.LetN(n, vlang.LamN([]string{"x"}, op("+", v("x"), v("a"))), call(I(16))),
+			vlang.LetN(n, inc, call(I(16))),
+			vlang.FuncN(n, []string{"x"}, op("*", v("x"), I(2)), call(I(3))),
+			vlang.FuncN(n, []string{"x"}, op("*", v("x"), v("b")), call(v("a"))),
+			vlang.CallN(vlang.CallN(vlang.LamN([]string{n}, vlang.LamN([]string{"y"}, call(v("y")))), inc), I(16)),
+			vlang.CallN(vlang.LamN([]string{n}, vlang.MethodN(vlang.MethodN(v("l"), "map", vlang.LamN([]string{"e"}, call(v("e")))), "sum")), inc),
+			vlang.LetN(n, I(5), op("+", v(n), v("a"))),
+			vlang.CallN(vlang.LamN([]string{n}, op("+", v(n), I(1))), v("a")),
+		)
+	}
+	for _, n := range []string{"get", "put", "size", "map"} {
+		two := vlang.LamN([]string{"p", "q"}, op("+", op("*", v("p"), I(10)), v("q")))
+		progs = append(progs,
+			vlang.MethodN(vlang.MapN([]string{n, "k"}, two, I(7)), n, I(1), I(2)),
+			vlang.MethodN(vlang.MapN([]string{n, "k"}, two, v("a")), n, I(1), v("a")),
+			vlang.LetN("o", vlang.MapN([]string{n, "k"}, two, v("a")), vlang.MethodN(v("o"), n, v("a"), I(2))),
+			vlang.MethodN(vlang.MapN([]string{"k", n}, I(7), two), n, I(3), I(4)),
+		)
+	}
+	if ctx.Shard == 0 {
+		for _, p := range progs {
+			h.check(ctx, p, nil)
+		}
+	}
+	ctx.SpaceDone("4 static-function names (abs, sqrt, min, string) as closure parameter, let (constant and non-constant value), func, captured, inside a list method's callback, as a plain value x 10 templates; 4 map-method names (get, put, size, map) as keys of closure-valued map fields x 4 templates (constant and non-constant maps)")
+}
+
 func run(ctx *bex.Ctx) {
 	h := newHarness()
 	maxA, maxB := 7, 4
@@ -328,6 +368,7 @@ func run(ctx *bex.Ctx) {
 	}
 	h.runDeferred(ctx)
 	h.runOperators(ctx)
+	h.runStaticNames(ctx)
 	// tier B first (cheap, deep), then tier A
 	ctx.Space("tierB-binder-skeletons")
 	var idx int64
